@@ -220,6 +220,8 @@ _dispatch_dispose(dispatch_object_t dou)
 	void *ctxt = dou._do->do_ctxt;
 	bool allow_free = true;
 
+	DISPATCH_VERIF_PROBE("dispose", dou._do, dou._do->do_ref_cnt,
+			dou._do->do_xref_cnt);
 	if (unlikely(dou._do->do_next != DISPATCH_OBJECT_LISTLESS)) {
 		DISPATCH_INTERNAL_CRASH(dou._do->do_next, "Release while enqueued");
 	}
